@@ -36,7 +36,7 @@ def correspond(ck, res, cf, hbin, tag, env=None):
 
 # level currently claimed per property (kept in step with tools/mkmanifest.py); "exploration" = the
 # property theorems are not finished yet: only the correspondence + judge decide
-LEVEL = {"C16": "exploration", "C17": "exploration", "C15": "exploration", "C09": "translation_validation", "C04": "exploration", "C05": "exploration", "C12": "exploration"}
+LEVEL = {"C16": "exploration", "C15": "exploration", "C09": "translation_validation", "C12": "exploration"}
 def level_of(pid):
     return LEVEL.get(pid, "proof")
 
@@ -1698,19 +1698,88 @@ def tfu(ac):
     return "".join("T" if x == "1" else "F" if x == "0" else "u" for x in ac)
 
 
-def opt3_string(o):
+def fnv64(s):
+    h = 0xcbf29ce484222325
+    for b in s.encode():
+        h ^= b
+        h = (h * 0x100000001b3) & 0xFFFFFFFFFFFFFFFF
+    return "%016x" % h
+
+
+def graph_string(g, names):
+    """canonical rendering of a DoubleLabeledGraph, the same as ocaml/driver.ml graph_string"""
+    idx = sorted(int(k) for k in g["node_labels"])
+    pos = {nm: i for i, nm in enumerate(names)}
+    def lab(l):
+        return l if l in ("TOP", "BOT") else "v%d" % pos[l]
+    roots = {int(k): v for k, v in g["tree_root_labels"].items()}
+    lo = sorted((int(a), int(b)) for a, b in g["lo_edges"])
+    hi = sorted((int(a), int(b)) for a, b in g["hi_edges"])
+    return ("N" + ",".join(map(str, idx)) + "L" + ",".join("%d=%s" % (h, lab(g["node_labels"][str(h)])) for h in idx)
+            + "R" + ",".join("%d=%s" % (h, "+".join(str(pos[x]) for x in roots.get(h, []))) for h in idx)
+            + "l" + ",".join("%d>%d" % e for e in lo) + "h" + ",".join("%d>%d" % e for e in hi))
+
+
+def graph_string_canon(g, names):
+    """the same with the nodes renumbered in preorder from the roots (statement order, lo before hi);
+    the same as ocaml/driver.ml graph_string_canon"""
+    import sys
+    pos = {nm: i for i, nm in enumerate(names)}
+    lo = {int(a): int(b) for a, b in g["lo_edges"]}
+    hi = {int(a): int(b) for a, b in g["hi_edges"]}
+    roots = sorted((pos[x], int(k)) for k, v in g["tree_root_labels"].items() for x in v)
+    ren = {}
+    def rec(k):
+        if k in ren:
+            return
+        ren[k] = len(ren)
+        if k in lo:
+            rec(lo[k])
+        if k in hi:
+            rec(hi[k])
+    old = sys.getrecursionlimit(); sys.setrecursionlimit(10000)
+    try:
+        for _, k in roots:
+            rec(k)
+        for k in sorted(int(k) for k in g["node_labels"]):
+            rec(k)
+    finally:
+        sys.setrecursionlimit(old)
+    def lab(l):
+        return l if l in ("TOP", "BOT") else "v%d" % pos[l]
+    nodes = sorted(ren[int(k)] for k in g["node_labels"])
+    labels = sorted((ren[int(k)], lab(l)) for k, l in g["node_labels"].items())
+    rts = sorted((ren[int(k)], sorted(pos[x] for x in g["tree_root_labels"].get(k, []))) for k in g["node_labels"])
+    le = sorted((ren[a], ren[b]) for a, b in lo.items())
+    he = sorted((ren[a], ren[b]) for a, b in hi.items())
+    return ("N" + ",".join(map(str, nodes)) + "L" + ",".join("%d=%s" % x for x in labels)
+            + "R" + ",".join("%d=%s" % (h, "+".join(map(str, l))) for h, l in rts)
+            + "l" + ",".join("%d>%d" % e for e in le) + "h" + ",".join("%d>%d" % e for e in he))
+
+
+GRAPH_NAMES = {}     # problem code -> statement names in variable order (no sorting in the service)
+
+
+def opt3_string(o, names=None, canon=False):
     if o["type"] == "None":
         return "None"
     if o["type"] == "Error":
         return "Error"
-    return "Some:" + ",".join(tfu(x["ac"]) for x in o["content"])
+    if names is None:
+        return "Some:" + ",".join(tfu(x["ac"]) for x in o["content"])
+    if canon:
+        return "Some:" + ",".join(tfu(x["ac"]) + "~" + fnv64(graph_string_canon(x["graph"], names))[:8] for x in o["content"])
+    return "Some:" + ",".join(tfu(x["ac"]) + "#" + fnv64(graph_string(x["graph"], names))[:8] for x in o["content"])
 
 
 def pinfo_string(j):
     tasks = sorted("Parse" if t["type"] == "Parse" else "Solve:" + t["content"] for t in j["running_tasks"])
     a = j["acs_per_strategy"]
-    return ("problem %s %s code=%s parse=%s " % (hx(j["name"]), j["parsing_used"], hx(j["code"]), opt3_string(a["parse_only"]))
-            + " ".join("%s=%s" % (s_, opt3_string(a[STRAT_KEY[s_]])) for s_ in STRATS) + " running=" + ",".join(tasks))
+    names = None
+    if well_declared(j["code"]):
+        names = oracle.parse_adf_text(j["code"])[0]
+    return ("problem %s %s code=%s parse=%s " % (hx(j["name"]), j["parsing_used"], hx(j["code"]), opt3_string(a["parse_only"], names, j["parsing_used"] == "Hybrid"))
+            + " ".join("%s=%s" % (s_, opt3_string(a[STRAT_KEY[s_]], names, j["parsing_used"] == "Hybrid")) for s_ in STRATS) + " running=" + ",".join(tasks))
 
 
 class ServerRun:
@@ -1939,6 +2008,8 @@ def check_C16(ck, res, replay):
             runs.append((cid, run, texts))
         finally:
             server.close()
+        if not quick:
+            slow_scenarios(ck, res, sh, "C16")
     model, f2 = ck.run_sharded(os.path.join(ck.ROOT, "ocaml", "driver"), cf.lines, "C16.model")
     if f2:
         res.broken.append(("correspondence", "model driver process failed", str(f2)))
@@ -2018,6 +2089,50 @@ SERVER_ASSUME = ["actix-web / actix-identity / actix-session: request routing an
                  "tokio spawn_blocking + timeout: a task either completes, panics or times out (the 120 s timeout itself is not exercised)",
                  "MongoDB = the stub's subset (equality filters, $set, replacement, unique username); argon2 = an injective digest",
                  "requests are serialised by the harness: real concurrent request handling is not exhibited"]
+
+
+def slow_scenarios(ck, res, sh, which):
+    """scenarios that need a task to stay pending: run against the server built with its own
+    mock_long_computations feature (every task sleeps 20 s).  Thorough tier only."""
+    import time
+    binary, err = sh.build_server(features=["mock_long_computations"], tag="server-mock")
+    if binary is None:
+        res.broken.append(("build", "adf-bdd-server --features mock_long_computations", err))
+        return
+    server = sh.Server(binary)
+    try:
+        # (1) rename + re-registration while the parse task of the old name is pending (C17)
+        if which == "C17":
+            a, b = sh.Client(), sh.Client()
+            a.register("alice", "pa"); a.login("alice", "pa")
+            a.add("p", "s(secretA).ac(secretA,c(v)).", "Naive")
+            a.update("alice2", "pa")
+            b.register("alice", "pb"); b.login("alice", "pb")
+            time.sleep(1.0)
+            b.add("p", "s(ownB).ac(ownB,c(f)).", "Naive")
+            time.sleep(21.5)           # alice's task (started first) completes, bob's is still sleeping
+            doc = [d for d in server.coll("adf-problems") if d["username"] == "alice" and d["name"] == "p"]
+            if doc and doc[0]["adf"]["type"] == "Some" and "secretA" in json.dumps(doc[0]["adf"]):
+                res.violations.append({"key": "isolation:rename-race", "what": "the parse result of alice's problem (started before she renamed herself) was written into the problem of the user who re-registered her old name",
+                                       "events": ["alice adds p", "alice renames to alice2", "bob registers as alice, adds p", "alice's task completes"]})
+            time.sleep(3.0)
+        if which == "C16":
+            # (2) delete + re-add of a problem name while its first parse task is pending (C16)
+            c = sh.Client()
+            c.register("carol", "pc"); c.login("carol", "pc")
+            c.add("q", "s(first).ac(first,c(v)).", "Naive")
+            c.delete("q")
+            time.sleep(1.0)
+            c.add("q", "s(second).ac(second,c(f)).", "Naive")
+            time.sleep(21.5)
+            doc = [d for d in server.coll("adf-problems") if d["username"] == "carol" and d["name"] == "q"]
+            if doc and doc[0]["adf"]["type"] == "Some" and "first" in json.dumps(doc[0]["adf"]) and "second" in doc[0]["code"]:
+                res.violations.append({"key": "server:stale-parse-after-readd", "what": "after delete + re-add of a problem name the pending parse task of the deleted problem stored its diagram in the new problem (code and diagram disagree)",
+                                       "events": ["carol adds q (code 1)", "carol deletes q", "carol adds q (code 2)", "first task completes"]})
+            time.sleep(22)
+    finally:
+        server.close()
+    res.extra["slow_scenarios_run"] = 1
 
 
 def check_C17(ck, res, replay):
@@ -2102,11 +2217,26 @@ def check_C17(ck, res, replay):
                     nreq += 1
                     if st != 401:
                         res.violations.append({"key": "unauthenticated:" + rq[0], "what": "an unauthenticated %s is answered with %s" % (rq[0], st), "events": list(run.model_lines)})
+            # scripted scenario: one account open in two browsers, deleted in one, name registered again by somebody else
+            b0, b1, b2 = base + 20, base + 21, base + 22
+            run.do(b0, ("register", "twice", "pwA")); run.do(b0, ("login", "twice", "pwA")); run.do(b2, ("login", "twice", "pwA"))
+            run.do(b0, ("delacc",))
+            run.do(b1, ("register", "twice", "pwB")); run.do(b1, ("login", "twice", "pwB"))
+            run.do(b1, ("add", "mine", "s(own%d).ac(own%d,c(v))." % (b1, b1), "Naive"))
+            st, body = run.do(b2, ("get", "mine"))
+            nreq += 8
+            if st == 200 and ("own%d)" % b1) in body:
+                res.violations.append({"key": "isolation:stale-session-after-delete",
+                                       "what": "a browser still holding the cookie of a deleted account reads (and can delete) the problems of the user who registered that name afterwards",
+                                       "events": run.model_lines[-14:], "observed": body[:200]})
+            run.do(b2, ("delete", "mine"))
             run.dump()
             cid = cf.add("SERVER", run.model_lines, meta={})
             runs.append((cid, run))
         finally:
             server.close()
+        if not quick:
+            slow_scenarios(ck, res, sh, "C17")
     model, f2 = ck.run_sharded(os.path.join(ck.ROOT, "ocaml", "driver"), cf.lines, "C17.model")
     if f2:
         res.broken.append(("correspondence", "model driver process failed", str(f2)))
